@@ -4,7 +4,7 @@
    through all process blocks with the tactic of FactoryInv.v. *)
 From Coq Require Import List ZArith Lia Bool Arith.
 From RecordUpdate Require Import RecordUpdate.
-From FV Require Import ListLemmas ListLemmas2 Kernel SrcFragments TieB World Factory.
+From FV Require Import ListLemmas ListLemmas2 Kernel SrcFragments Lens World Factory.
 From FV Require FactoryInv TBuffer.
 From FV Require StoreB StoreBInv.
 Import ListNotations.
